@@ -263,15 +263,16 @@ func init() {
 	register(&Property{
 		ID: "C02",
 		Explanation: "Decides structural necessary conditions of 'listener events reproduce the derivation' on every case of every committed generated applyRule: STACKIDX: each stack reference stack[len(stack)-K] / stack[len(stack)-A:len(stack)-B] of case i lies inside the tmRuleLen[i] symbols of rule i (inside the prefix for mid-rule nonterminals), ranges are non-empty, fixTrailingWS gets exactly the whole right-hand side. " +
-			"GUARD(markerfree) and LOOPSHAPE(marker-transparent): state markers never count as symbols and never stop a scan of the right-hand side (HasTrailingNulls decides whether trailing whitespace is trimmed). VARIANT(trim-trailing-empty): all trailing empty symbols are trimmed from a node's range. " +
+			"GUARD(markerfree) and LOOPSHAPE(marker-transparent): state markers never count as symbols and never stop a scan of the right-hand side (HasTrailingNulls decides whether trailing whitespace is trimmed). VARIANT(trim-trailing-empty): all trailing empty symbols are trimmed from a node's range. SIBLING(list-recursion): every recursive list rule built by Expand is left-recursive unless the list is flagged right-recursive (elements are reported in source order). " +
 			"Not decided: that the range is the right sub-range, post-order, node types; list expansion order.",
-		Rules: []string{"STACKIDX", "GUARD(markerfree)", "LOOPSHAPE(marker-transparent)", "VARIANT"},
+		Rules: []string{"STACKIDX", "GUARD(markerfree)", "LOOPSHAPE(marker-transparent)", "VARIANT", "SIBLING(list-recursion)"},
 		Run: func(c *Ctx) {
 			ruleSTACKIDX(c)
 			ruleMARKERFREE(c)
 			ruleMARKERLOOPS(c)
 			ruleMARKERLOOPSAST(c)
 			ruleRECOVERY(c)
+			ruleLISTRECURSION(c)
 		},
 	})
 	register(&Property{
@@ -390,9 +391,10 @@ func init() {
 		ID: "C13",
 		Explanation: "Decides one structural necessary condition of 'desugaring preserves the language': DTX(expr-equal): Expand reuses an already extracted nonterminal for a sub-expression (lists, optionals, nested choices) when names match and (*Expr).Equal says the expressions are the same; the check evaluates Equal abstractly for every expression kind and requires that a difference in any component of the kind (symbol, arguments, every sub-expression including a list's separator, list flags, names, arrow flags, predicate, set index) makes it false and identical components make it true. " +
 			"LOOPSHAPE(marker-transparent): markers never hide symbols of a rule. Not decided: the expansion rules themselves (which productions a list/optional/choice turns into) — language equivalence of those is algorithmic and out of reach for this technique; two of the four independently seeded C13/C14 regressions are of that kind and are not detected (recorded in DESIGN.md).",
-		Rules: []string{"DTX(expr-equal)", "LOOPSHAPE(marker-transparent)"},
+		Rules: []string{"DTX(expr-equal)", "SIBLING(list-recursion)", "LOOPSHAPE(marker-transparent)"},
 		Run: func(c *Ctx) {
 			ruleEXPREQUAL(c)
+			ruleLISTRECURSION(c)
 			ruleMARKERLOOPS(c)
 			ruleMARKERLOOPSAST(c)
 		},
